@@ -196,6 +196,9 @@ where
 
     // Set when a line holding nothing but the wrap symbol has just been produced.
     let mut stalled = false;
+    // How many such lines in a row.
+    const MAX_LINES_WITHOUT_PROGRESS: usize = 16;
+    let mut lines_without_progress = 0;
 
     let stop = loop {
         if stack.is_empty() {
@@ -267,6 +270,23 @@ where
                 break Stop::LineLimit;
             }
             stalled = no_progress;
+
+            // The same with a line limit: a huge --wrap-max-lines must not produce that many
+            // lines of nothing (here also: a panel with no room for text at all).
+            let nothing_fits = curr_line.len == 0
+                && graphemes
+                    .first()
+                    .map(|&(_, w)| w > width_left)
+                    .unwrap_or(false);
+            lines_without_progress = if nothing_fits {
+                lines_without_progress + 1
+            } else {
+                0
+            };
+            if lines_without_progress > MAX_LINES_WITHOUT_PROGRESS {
+                stack.push((style, text));
+                break Stop::LineLimit;
+            }
 
             // The length does not matter anymore and `curr_line` will be reset
             // at the end, so move the line segments out.
